@@ -25,6 +25,8 @@ type concHashCase struct {
 	KeyLen     int    `json:"key_len"`
 	// CustomHasher (Hash, ReferenceHash): the balancer is given an FNV-1a hasher of the user's instead of its pooled ones
 	CustomHasher bool `json:"custom_hasher,omitempty"`
+	// NilKeys: every other message has no key
+	NilKeys bool `json:"nil_keys,omitempty"`
 }
 
 func init() { ev.Register("conc-hash", func(tb ev.TB, c concHashCase) { runConcHash(tb, c) }) }
@@ -67,15 +69,31 @@ func runConcHash(tb ev.TB, c concHashCase) {
 	}
 	var mu sync.Mutex
 	var first *miss
+	panicked := ""
 	var wg sync.WaitGroup
 	in := &spinBarrier{n: int32(c.Goroutines)}
 	for g := 0; g < c.Goroutines; g++ {
 		wg.Add(1)
 		go func(g int) {
 			defer wg.Done()
+			cur := -1
+			defer func() {
+				if p := recover(); p != nil {
+					mu.Lock()
+					if first == nil {
+						first = &miss{g, cur, -1, -1}
+						panicked = fmt.Sprint(p)
+					}
+					mu.Unlock()
+				}
+			}()
 			in.wait()
 			for i := 0; i < c.PerG; i++ {
+				cur = i
 				key := concKey(g, i, c.KeyLen)
+				if c.NilKeys && (g+i)%2 == 0 {
+					key = nil // no key: any offered partition is a right answer, picked at random by most balancers
+				}
 				got := bal.Balance(kafka.Message{Key: key}, ps...)
 				want, det := expected(b, key, c.N)
 				if (det && got != want) || got < 0 || got >= c.N {
@@ -90,6 +108,10 @@ func runConcHash(tb ev.TB, c concHashCase) {
 		}(g)
 	}
 	wg.Wait()
+	if panicked != "" {
+		ev.Fail(tb, "conc-hash", "conc-panic/"+c.Balancer, c, "%s shared by %d goroutines, n=%d: Balance panicked in goroutine %d at call #%d: %s", c.Balancer, c.Goroutines, c.N, first.g, first.i, panicked)
+		return
+	}
 	if first != nil {
 		ev.Fail(tb, "conc-hash", "conc/"+c.Balancer, c, "%s shared by %d goroutines, n=%d: goroutine %d, key #%d (%d bytes) was sent to partition %d, the reference client sends it to %d",
 			c.Balancer, c.Goroutines, c.N, first.g, first.i, c.KeyLen, first.got, first.want)
@@ -108,6 +130,7 @@ func TestConcurrentHash(t *testing.T) {
 		if c.Balancer == "Hash" || c.Balancer == "ReferenceHash" {
 			c.CustomHasher = rapid.Bool().Draw(t, "customHasher")
 		}
+		c.NilKeys = rapid.IntRange(0, 2).Draw(t, "nilKeys") == 0
 		runConcHash(t, c)
 		ev.Case(fmt.Sprintf("conc-hash/%+v", c), true, "concurrent_hash", "conc_"+c.Balancer)
 		ev.Sample(c)
